@@ -339,6 +339,46 @@ fn misc_part(rep: &mut Report, thorough: bool) {
             }
         }
     }
+    // Clamped IIR: y[n] = clamp(t0 x[n] + sum t_i y[n-i]); the *clamped* value
+    // is what is fed back.
+    {
+        use rustradio::iir_filter::ClampedFilter;
+        for taps in [vec![1.0f32, 0.0], vec![0.5, 0.5], vec![0.2, 0.3, 0.4], vec![0.1, 0.9]] {
+            for (lo, hi) in [(0.0f32, 1.0f32), (-0.5, 0.5), (-10.0, 10.0)] {
+                for (iname, x) in [
+                    ("saturating-step", vec![5.0f32, 5.0, 5.0, 0.0, 0.0, 0.0, 0.0, -5.0, -5.0, 0.0, 0.0, 0.3, 0.3]),
+                    ("outlier", vec![0.1, 0.2, 100.0, 0.1, 0.1, 0.1, -100.0, 0.2, 0.2, 0.2]),
+                    ("inside", vec![0.1, 0.2, 0.3, 0.2, 0.1, 0.0, -0.1, -0.2]),
+                ] {
+                    let mut f = IirFilter::new(&taps);
+                    let mut ys: Vec<f64> = vec![];
+                    rep.evaluations += 1;
+                    rep.distinct_nontrivial += 1;
+                    for (n, xv) in x.iter().enumerate() {
+                        let got = f.filter_clamped(*xv, lo, hi) as f64;
+                        let mut want = taps[0] as f64 * *xv as f64;
+                        for i in 1..taps.len() {
+                            if n >= i {
+                                want += taps[i] as f64 * ys[n - i];
+                            }
+                        }
+                        let want = want.clamp(lo as f64, hi as f64);
+                        ys.push(want);
+                        if (got - want).abs() > 1e-4 * (1.0 + want.abs()) {
+                            viol(
+                                rep,
+                                "IirFilter",
+                                "clamped-recurrence",
+                                format!("taps {taps:?} clamp [{lo},{hi}] input {iname}: y[{n}] = {got}, recurrence gives {want}"),
+                                json!({"part": "iir-clamped", "taps": taps, "input": iname}),
+                            );
+                            break;
+                        }
+                    }
+                }
+            }
+        }
+    }
     // Hilbert: re[k] = x[k - (N+1)/2] (zero before the start), im = FIR of the
     // hilbert taps over the same window.
     verif::clear_stream_specs();
